@@ -216,9 +216,9 @@ class Negotiated:
             # therefore we can not collide due to the way we generate the configuration
 
             for capa in sent_ms_capa:
-                # no need to check that the capability exists, we generated it
-                # checked it is what we sent and only send MULTIPROTOCOL
-                if sent_capa[capa] != recv_capa[capa]:
+                # we generated ours, but the peer may not have sent the capability at all:
+                # a missing one does not match (the KeyError closed the session without NOTIFICATION)
+                if sent_capa.get(capa, None) != recv_capa.get(capa, None):
                     self.multisession = (
                         2,
                         8,
